@@ -63,6 +63,9 @@ class ExprMixin:
     def e_Name(self, node: ast.Name, frame: Frame) -> V:
         value = frame.lookup(node.id)
         if value is not None:
+            if value.kind == "undefined":
+                raise Unsupported(f"local {node.id} may be read before it is assigned in a loop cut by an invariant; "
+                                  "give its type in Loop(types=...)")
             return value
         return self.lookup_global(node.id, frame.module, node)
 
